@@ -137,7 +137,7 @@ func (r *c19run) check(ok bool, sig, detail string) {
 
 func specific(s string) bool { return !strings.Contains(s, "?") && s != "" }
 
-func has(xs []int, v int) bool {
+func hasInt(xs []int, v int) bool {
 	for _, x := range xs {
 		if x == v {
 			return true
@@ -464,7 +464,7 @@ func c19(args []string) int {
 			continue
 		}
 		pred := func(name string, got bool, featureName string) {
-			want := has(feature[featureName], x)
+			want := hasInt(feature[featureName], x)
 			run.check(got == want, "capability|"+name, fmt.Sprintf("%s.%s()=%v but the documents' table says %s=%v", tag, name, got, featureName, want))
 			run.distinct[tag+"."+name] = true
 		}
@@ -479,7 +479,7 @@ func c19(args []string) int {
 		pred("SupportsUnsetValues", v.SupportsUnsetValues(), "UnsetValues")
 		run.check(v.FrameHeaderLengthInBytes() == hdr[x], "capability|FrameHeaderLengthInBytes", fmt.Sprintf("%s: %d vs documents %d", tag, v.FrameHeaderLengthInBytes(), hdr[x]))
 		for name, bit := range qfBits {
-			want := has(qf[name], x)
+			want := hasInt(qf[name], x)
 			run.check(v.SupportsQueryFlag(bit) == want, "capability|SupportsQueryFlag|"+name, fmt.Sprintf("%s.SupportsQueryFlag(%s)=%v, documents %v", tag, name, v.SupportsQueryFlag(bit), want))
 			run.distinct[tag+".SupportsQueryFlag."+name] = true
 		}
@@ -495,20 +495,20 @@ func c19(args []string) int {
 		}
 		strArgs := append([]string{"", "x", "keyspace", "Lz4", "lz4"}, allNames...)
 		for _, s := range strArgs {
-			run.check(v.SupportsSchemaChangeTarget(primitive.SchemaChangeTarget(s)) == has(targets[s], x), "capability|SupportsSchemaChangeTarget",
-				fmt.Sprintf("%s target %q: library %v documents %v", tag, s, v.SupportsSchemaChangeTarget(primitive.SchemaChangeTarget(s)), has(targets[s], x)))
-			run.check(v.SupportsTopologyChangeType(primitive.TopologyChangeType(s)) == has(topo[s], x), "capability|SupportsTopologyChangeType",
-				fmt.Sprintf("%s type %q: library %v documents %v", tag, s, v.SupportsTopologyChangeType(primitive.TopologyChangeType(s)), has(topo[s], x)))
-			run.check(v.SupportsCompression(primitive.Compression(s)) == has(comps[s], x), "capability|SupportsCompression",
-				fmt.Sprintf("%s compression %q: library %v documents %v", tag, s, v.SupportsCompression(primitive.Compression(s)), has(comps[s], x)))
-			run.check((primitive.CheckValidSchemaChangeTarget(primitive.SchemaChangeTarget(s), v) == nil) == has(targets[s], x), "capability|CheckValidSchemaChangeTarget", tag+" "+s)
-			run.check((primitive.CheckValidTopologyChangeType(primitive.TopologyChangeType(s), v) == nil) == has(topo[s], x), "capability|CheckValidTopologyChangeType", tag+" "+s)
+			run.check(v.SupportsSchemaChangeTarget(primitive.SchemaChangeTarget(s)) == hasInt(targets[s], x), "capability|SupportsSchemaChangeTarget",
+				fmt.Sprintf("%s target %q: library %v documents %v", tag, s, v.SupportsSchemaChangeTarget(primitive.SchemaChangeTarget(s)), hasInt(targets[s], x)))
+			run.check(v.SupportsTopologyChangeType(primitive.TopologyChangeType(s)) == hasInt(topo[s], x), "capability|SupportsTopologyChangeType",
+				fmt.Sprintf("%s type %q: library %v documents %v", tag, s, v.SupportsTopologyChangeType(primitive.TopologyChangeType(s)), hasInt(topo[s], x)))
+			run.check(v.SupportsCompression(primitive.Compression(s)) == hasInt(comps[s], x), "capability|SupportsCompression",
+				fmt.Sprintf("%s compression %q: library %v documents %v", tag, s, v.SupportsCompression(primitive.Compression(s)), hasInt(comps[s], x)))
+			run.check((primitive.CheckValidSchemaChangeTarget(primitive.SchemaChangeTarget(s), v) == nil) == hasInt(targets[s], x), "capability|CheckValidSchemaChangeTarget", tag+" "+s)
+			run.check((primitive.CheckValidTopologyChangeType(primitive.TopologyChangeType(s), v) == nil) == hasInt(topo[s], x), "capability|CheckValidTopologyChangeType", tag+" "+s)
 		}
 		for c := 0; c < 70000; c++ {
 			want := false
 			for _, r := range tb.RevisionTypes {
 				if r.Code == c {
-					want = has(r.Versions, x)
+					want = hasInt(r.Versions, x)
 				}
 			}
 			got := v.SupportsDseRevisionType(primitive.DseRevisionType(c))
@@ -533,15 +533,15 @@ func c19(args []string) int {
 	// classification predicates
 	for x := 0; x < 65536; x++ {
 		c := primitive.ConsistencyLevel(x)
-		run.check(c.IsSerial() == has(tb.Serial, x), "ConsistencyLevel|IsSerial", fmt.Sprint(x))
-		run.check(c.IsLocal() == has(tb.Local, x), "ConsistencyLevel|IsLocal", fmt.Sprint(x))
-		run.check(c.IsNonSerial() == (c.IsValid() && !has(tb.Serial, x)), "ConsistencyLevel|IsNonSerial", fmt.Sprint(x))
-		run.check(c.IsNonLocal() == (c.IsValid() && !has(tb.Local, x)), "ConsistencyLevel|IsNonLocal", fmt.Sprint(x))
-		run.check((primitive.CheckSerialConsistencyLevel(c) == nil) == has(tb.Serial, x), "ConsistencyLevel|CheckSerial", fmt.Sprint(x))
+		run.check(c.IsSerial() == hasInt(tb.Serial, x), "ConsistencyLevel|IsSerial", fmt.Sprint(x))
+		run.check(c.IsLocal() == hasInt(tb.Local, x), "ConsistencyLevel|IsLocal", fmt.Sprint(x))
+		run.check(c.IsNonSerial() == (c.IsValid() && !hasInt(tb.Serial, x)), "ConsistencyLevel|IsNonSerial", fmt.Sprint(x))
+		run.check(c.IsNonLocal() == (c.IsValid() && !hasInt(tb.Local, x)), "ConsistencyLevel|IsNonLocal", fmt.Sprint(x))
+		run.check((primitive.CheckSerialConsistencyLevel(c) == nil) == hasInt(tb.Serial, x), "ConsistencyLevel|CheckSerial", fmt.Sprint(x))
 		d := primitive.DataTypeCode(x)
-		run.check(d.IsPrimitive() == (x == 0 || has(tb.Primitive, x)), "DataTypeCode|IsPrimitive", fmt.Sprint(x))
+		run.check(d.IsPrimitive() == (x == 0 || hasInt(tb.Primitive, x)), "DataTypeCode|IsPrimitive", fmt.Sprint(x))
 		e := primitive.ErrorCode(x)
-		run.check(e.IsFatalError() == has(tb.Fatal, x), "ErrorCode|IsFatalError", fmt.Sprint(x))
+		run.check(e.IsFatalError() == hasInt(tb.Fatal, x), "ErrorCode|IsFatalError", fmt.Sprint(x))
 		if e.IsValid() {
 			n := 0
 			for _, b := range []bool{e.IsFatalError(), e.IsRequestExecutionError(), e.IsQueryValidationError()} {
